@@ -172,8 +172,8 @@ def update_changes_unit(res):
     or an unknown source makes the register unknown; registers not mentioned are untouched."""
     ex = eng()
     ex.load(REPO + "/" + ISA)
-    for st_a, st_b, ch in itertools.product(("absent", "unknown", "tracked"), ("absent", "unknown", "tracked"),
-                                            ("none", "unknown", "const", "copy_b", "copy_c")):
+    for st_a, st_b, ch, post_pass in itertools.product(("absent", "unknown", "tracked"), ("absent", "unknown", "tracked"),
+                                                       ("none", "unknown", "const", "copy_b", "copy_c"), (False, True)):
         va, vb, dv = z3.Ints("va vb dv")
         oa = BStr.fresh("oa", 1)
 
@@ -190,10 +190,14 @@ def update_changes_unit(res):
             change = {"none": {}, "unknown": {"a": None}, "const": {"a": {"name": "a", "value": SNum(dv, True)}},
                       "copy_b": {"a": {"name": "b", "value": SNum(dv, True)}}, "copy_c": {"a": {"name": "c", "value": SNum(dv, True)}}}[ch]
             sem = SObj("ArchSemantics")
-            ex.abstract["get_reg_changes"] = lambda ex_, so, a, kw: change
+            iform = SObj("InstructionForm")
+            seen = []
+            ex.abstract["get_reg_changes"] = lambda ex_, so, a, kw: seen.append((a, kw)) or change
             ex.extra["state_b_before"] = state.get("b", "ABSENT")
-            out = ex.call_method("KernelDG", "_update_reg_changes", SObj("KernelDG", arch_sem=sem), [SObj("InstructionForm"), state])
+            out = ex.call_method("KernelDG", "_update_reg_changes", SObj("KernelDG", arch_sem=sem), [iform, state] + ([True] if post_pass else []))
             ex.extra["same"] = out is state
+            # the changes asked for are those of this instruction and of the requested pass
+            ex.extra["asked"] = len(seen) == 1 and seen[0][0][0] is iform and bool((seen[0][0][1:] or [seen[0][1].get("only_postindexed", False)])[0]) == post_pass
             return out
 
         paths = ex.explore(run, [oa.wf(), oa.is_one_of(NAMES)])
@@ -201,10 +205,14 @@ def update_changes_unit(res):
         def post(v, p):
             if not isinstance(v, dict) or not p.extra["same"]:
                 return False
-            g = []
-            # b is never touched
-            g.append(z3.BoolVal(v.get("b", "ABSENT") is p.extra["state_b_before"]))
+            g = [z3.BoolVal(bool(p.extra["asked"]))]
+            # b is never touched: same entry, same contents, and not shared with a's entry
+            vb_now = v.get("b", "ABSENT")
+            g.append(z3.BoolVal(vb_now is p.extra["state_b_before"]))
             a = v.get("a", "ABSENT")
+            if isinstance(vb_now, dict):
+                g.append(z3.BoolVal(a is not vb_now and set(vb_now) == {"name", "value"} and vb_now["name"] == "b"))
+                g.append(real_term(vb_now["value"]) == z3.ToReal(vb))
             if ch == "none":
                 g.append(z3.BoolVal((a == "ABSENT") == (st_a == "absent")))
                 return z3.And(g)
@@ -230,7 +238,7 @@ def update_changes_unit(res):
             g.append(ex.eq_term(a["name"], src))
             return z3.And(g)
 
-        res.add_paths(paths, post, kind=f"{st_a}/{st_b}/{ch}")
+        res.add_paths(paths, post, kind=f"{st_a}/{st_b}/{ch}/post={int(post_pass)}")
     return res
 
 
